@@ -1184,6 +1184,7 @@ def run(ctx, rep):
     r06z(ctx, rep)
     r06f(ctx, rep)
     r06g(ctx, rep)
+    r06q(ctx, rep)
     # R06n: the arithmetic arms of number.rs, arm by arm (same rule as C08's R08a)
     sub = type(rep)(rep.prop)
     numeric.r08a(ctx, sub)
@@ -1313,6 +1314,89 @@ def r06g(ctx, rep, rule="R06g"):
     else:
         rep.fail(rule, "%s|length" % rule, "length (prelude.scm) follows cdr with a single cursor and no identity test (%s): "
                  "(length l) on a circular l never returns and grows the stack without bound" % detail)
+
+
+def r06q(ctx, rep, rule="R06q"):
+    facts = ctx["facts"]
+    rep.rule(rule, "only data reach the literal converter: Heap::maybe_put_cell panics on the three Cell variants that exist for "
+             "printing only (Procedure, Macro, Continuation). (i) Those variants are constructed only in Heap::get_as_cell "
+             "(outside derived impls and tests); (ii) of the functions that call get_as_cell, only the eval builtin reaches "
+             "the compiler, and there the call of Vm::compile is reachable only through the true edge of Cell::is_datum.")
+    bad = []
+    n = 0
+    for p, f in sorted(facts.fns.items()):
+        if f.crate != "marwood" or f.impl_trait in DERIVE_TRAITS or "::tests::" in p:
+            continue
+        for bb, j, st in f.stmts():
+            rv = st["rv"]
+            if rv["k"] == "agg" and (rv.get("adt") or "") == "marwood::cell::Cell" and rv.get("variant") in ("Procedure", "Macro", "Continuation"):
+                n += 1
+                if p != "marwood::vm::heap::Heap::get_as_cell":
+                    bad.append((f, st))
+    key = "%s|non-data-cells|constructed" % rule
+    if bad:
+        rep.fail(rule, key, "%s constructs a printing-only Cell variant outside Heap::get_as_cell: such a cell can reach "
+                 "maybe_put_cell through the parser/compiler path" % bad[0][0].short, [bad[0][1]["loc"]])
+    else:
+        rep.ok(rule, key, "Cell::Procedure / Macro / Continuation are constructed only in Heap::get_as_cell (%d site(s))" % n)
+    rep.floor(rule, "constructions of printing-only Cell variants", n, 3)
+    cg = ctx["cg"]
+    compile_entry = "marwood::vm::compile::<impl marwood::vm::Vm>::compile"
+    reach_compile = set()
+    for p, f in facts.fns.items():
+        if f.crate == "marwood" and any((callee(t) or "").endswith("Heap::get_as_cell") for bb, t in f.calls()):
+            if p != "marwood::vm::heap::Heap::get_as_cell" and compile_entry in cg.reachable_from([p]) and p.startswith("marwood::vm::builtin::"):
+                reach_compile.add(p)
+    for p in sorted(reach_compile):
+        f = facts.fns[p]
+        comp = [(bb, t) for bb, t in f.calls() if compile_entry in cg.reachable_from([callee(t) or ""]) or callee(t) == compile_entry]
+        tests = [(bb, t) for bb, t in f.calls() if (callee(t) or "").endswith("Cell::is_datum")]
+        ok = bool(tests)
+        if ok:
+            # cut the false edges of is_datum tests: compile must then be unreachable... the other way round: compile must be
+            # reachable only via the TRUE edge, i.e. unreachable once true edges are cut
+            cut = set()
+            for bb, t in tests:
+                tb = t.get("target")
+                if tb is None:
+                    continue
+                tt = f.blocks[tb]["term"]
+                b2 = tb
+                for _ in range(3):
+                    if tt["k"] == "switch":
+                        break
+                    if tt["k"] == "goto":
+                        b2 = tt["target"]
+                        tt = f.blocks[b2]["term"]
+                        continue
+                    break
+                if tt["k"] != "switch":
+                    ok = False
+                    continue
+                o = f.origin(tt["op"])
+                neg = o[0] == "rv" and o[1]["rv"]["k"] == "un" and o[1]["rv"]["op"] == "Not"
+                vals = dict((v, tg) for v, tg in tt["targets"])
+                # edge on which is_datum() is true
+                if neg:
+                    true_t = vals.get(0, tt["otherwise"] if 0 not in vals else None)
+                else:
+                    true_t = tt["otherwise"] if 0 in vals else vals.get(1)
+                cut.add((b2, true_t))
+            seen = {0}
+            st_ = [0]
+            while st_:
+                b0 = st_.pop()
+                for y in f.succ[b0]:
+                    if (b0, y) in cut or y in seen:
+                        continue
+                    seen.add(y)
+                    st_.append(y)
+            ok = ok and not any(bb in seen for bb, t in comp)
+        (rep.ok if ok else rep.fail)(rule, "%s|%s|datum-guard" % (rule, f.short.rsplit("::", 1)[-1]),
+                                     "%s compiles the converted value only after Cell::is_datum accepted it" % f.short if ok else
+                                     "%s converts a run-time value to a Cell and hands it to the compiler without the is_datum test: a "
+                                     "procedure, macro or continuation value inside a quotation reaches maybe_put_cell's panic" % f.short, [f.span])
+    rep.floor(rule, "builtins that compile a converted run-time value (eval)", len(reach_compile), 1)
 
 
 def r06f(ctx, rep):
